@@ -347,6 +347,27 @@ class ExtendedKalmanFilter:
                     extra = f"\nExtra: {extra_from_map}"
                 raise ModelConstructionError(f"Mismatched Calibration:{missing}{extra}")
 
+        # Same structural checks as the Python ExtendedKalmanFilter
+        if set(process_noise.keys()) != set(state_model.control):
+            raise ModelConstructionError(
+                f"Process noise {sorted(str(k) for k in process_noise)} does not match control {sorted(str(k) for k in state_model.control)}"
+            )
+        for key, value in process_noise.items():
+            if value < 0.0:
+                raise ModelConstructionError(
+                    f"Negative process noise for {key}: {value}"
+                )
+        if set(sensor_models.keys()) != set(sensor_noises.keys()):
+            raise ModelConstructionError(
+                f"Sensor noise {sorted(sensor_noises.keys())} does not match sensors {sorted(sensor_models.keys())}"
+            )
+        for key, model in sensor_models.items():
+            # readings may be keyed by name or by Symbol; they are matched by name
+            if {str(k) for k in sensor_noises[key]} != {str(k) for k in model}:
+                raise ModelConstructionError(
+                    f"Sensor noise for {key} {sorted(str(k) for k in sensor_noises[key])} does not match readings {sorted(str(k) for k in model)}"
+                )
+
         self._process_model = BasicBlock(
             statements=self._translate_process_model(state_model),
             indent=4,
